@@ -201,15 +201,18 @@ def handleRequest (cfg : Cfg) (m : Nat → Bool) (pick : Nat → Nat) (connectOk
 /-- some registered route regex matches (`_try_route`'s loop finds a route) -/
 def anyMatch (m : Nat → Bool) (t : Table) : Bool := t.any (fun p => p.any (fun r => m r.pat))
 
+/-- `path = self.request.path or b'/'` -/
+def webPath (req : Parser) : Bytes :=
+  match req.path with
+  | some x => if x.isEmpty then [SLASH] else x
+  | none => [SLASH]
+
 /-- `HttpWebServerPlugin.on_request_complete()` for a completed web-server
     request when the only web plugin is `ReverseProxy` and the static server is off. -/
 def onRequestComplete (cfg : Cfg) (m : Nat → Bool) (pick : Nat → Nat) (connectOk : Bool)
     (t : Table) (req : Parser) (s : St) : Res :=
-  let path := match req.path with
-    | some x => if x.isEmpty then [SLASH] else x
-    | none => [SLASH]
   -- `route.match(text_(path))` is evaluated once a route is registered
-  if t.any (fun p => !p.isEmpty) && !utf8Valid path then ⟨s, true, some .valueError⟩
+  if t.any (fun p => !p.isEmpty) && !utf8Valid (webPath req) then ⟨s, true, some .valueError⟩
   else if anyMatch m t then handleRequest cfg m pick connectOk t req s
   else ⟨{ s with client := s.client.queue cfg.notFound }, true, none⟩
 
